@@ -4,8 +4,8 @@ import MLPE.Proofs.PlainDemo
 # C02 — every run terminates: no deadlock or lost wake-up under any schedule
 
 **Plain pipelines (`PlainP`)**: only `Input` dependencies; any number of nodes, any DAG shape; arbitrary retry /
-default / execution-mode settings; node failures anywhere, at any attempt; `None` / falsy results; collaborators that
-do not suspend — but may **raise**: an event-manager callback or the artifact store failing at any call site
+default / execution-mode settings; node failures anywhere, at any attempt; `None` / falsy results; collaborators (event
+managers, artifact store) that **suspend** any number of times inside any callback, and may **raise**: an event-manager callback or the artifact store failing at any call site
 (`cbRaise`).  Quantified over every interleaving of task sections, every completion order of node bodies and retry
 timers, every launch order a topological sort may produce, and cancellation of the caller at any point:
 
@@ -14,8 +14,12 @@ timers, every launch order a topological sort may produce, and cancellation of t
   unreachable;
 * `C02_plain_invariant`: the invariant behind it (`PInv`): the launcher has created a task for exactly a prefix of
   the topological order, every blocked waiter's predicate is false (no lost wake-up: the launcher blocked on
-  `cond[m]` ⇒ `m` is not ready; blocked on `cond[dest]` ⇒ no result yet; the caller blocked on `cond['run']` ⇒ no task
-  failed and the output has no result), node tasks wait only for their own body or timer, nobody is cancelled.
+  `cond[m]` ⇒ some source of `m` is not *settled* — no result, or the result is stored but its task is still inside
+  `artifact_store.save` and has not sent its `finally` notifications; blocked on `cond[dest]` ⇒ the output is not
+  settled; the caller blocked on `cond['run']` ⇒ no task failed and the output is not settled), node tasks wait only
+  for their own body or timer or are suspended in a collaborator, nobody is cancelled — until `manager.run` leaves;
+  then the finishing phase `Fin` (outcome decided, all other tasks cancel-marked, the caller possibly suspended in
+  `on_pipeline_complete`).
 
 Switch / one-of / recurrent shapes: the model is tied to the code by lock-step on all of them, the exact deadlock
 verdict of the stepping loop is compared with the model's `stuck` predicate on every explored trace, and the
@@ -27,35 +31,53 @@ open MLPE
 
 /-- **C02 (plain pipelines): the stuck state is unreachable** -/
 theorem C02_plain_no_stuck_state (P : Program) (d : DagRef) (hp : PlainP P d) (s : St) (h : Live P s)
-    (hpending : s.outcome = none) : stuck s = false :=
-  pinv_not_stuck hp (pinv_live (val := fun _ => none) hp h hpending) hpending
+    (hpending : s.outcome = none) : stuck s = false := by
+  rcases pinv_live (val := fun _ => none) hp h hpending with hinv | ⟨o, hf⟩
+  · exact pinv_not_stuck hp hinv hpending
+  · -- finishing phase: the caller itself is runnable
+    obtain ⟨j, mc, hc0⟩ := hf.caller
+    unfold stuck
+    have : s.tasks.any isRunnable = true := by
+      rw [List.any_eq_true]
+      exact ⟨_, List.mem_of_getElem? hc0, rfl⟩
+    simp [this]
 
-/-- the invariant of plain runs holds in every state of a pending run -/
+/-- the invariant of plain runs holds in every state of a pending run, until `manager.run` has left (then the run is
+in the finishing phase `Fin`: outcome decided, everybody else cancel-marked, the caller suspended in
+`on_pipeline_complete`) -/
 theorem C02_plain_invariant (P : Program) (d : DagRef) (hp : PlainP P d) (s : St) (h : Live P s)
-    (hpending : s.outcome = none) : PInv P d (fun _ => none) s :=
+    (hpending : s.outcome = none) : PInv P d (fun _ => none) s ∨ ∃ o, Fin P d (fun _ => none) o s :=
   pinv_live hp h hpending
 
 /-- no lost wake-up, spelled out for the launcher: if the main `_run_dag` task sits in its launch loop at node `m` and
-is blocked, then `m` really is not ready (some dependency has no result yet) — so the `notify` that will follow that
-dependency's result is still to come -/
+is blocked, then some dependency of `m` is not *settled* — its result is not stored, or it is stored but the node's
+task has not finished yet (the artifact store is still saving), so the `notify` of that dependency's `finally` is still
+to come -/
 theorem C02_plain_launcher_blocked_legitimately (P : Program) (d : DagRef) (hp : PlainP P d) (s : St) (h : Live P s)
     (hpending : s.outcome = none) (tk : Task) (m : Node) (rest : List Node) (h1 : s.tasks[1]? = some tk)
-    (hf : tk.frames = [.dagLaunch d (m :: rest)]) (hb : tk.st ≠ .runnable .go) :
-    tk.st = .blocked (.cond (.node m)) ∧ readyP P s m = false := by
-  have hinv := pinv_live (val := fun _ => none) hp h hpending
-  rcases hinv.rest with ⟨h0, _⟩ | ⟨L, hl, ⟨mtk, hm1, hmok⟩, _, _⟩
-  · have := getElem?_lt h1; omega
-  · rw [h1] at hm1; cases hm1
-    cases hmok with
-    | waitNode m' rest' _ h2 =>
-      simp at hf
-      obtain ⟨rfl, _⟩ := hf
-      exact ⟨rfl, h2⟩
-    | init => simp at hf
-    | launching => simp at hb
-    | waitingDest => simp at hf
-    | waitDest => simp at hf
-    | done => simp at hf
+    (hf : tk.frames = [.dagLaunch d (m :: rest)]) (hb : tk.st ≠ .runnable .go) (hmc : tk.mustCancel = false)
+    (hnd : tk.isDone = false) :
+    tk.st = .blocked (.cond (.node m)) ∧ ¬ ReadyA P s m := by
+  rcases pinv_live (val := fun _ => none) hp h hpending with hinv | ⟨o, hfin⟩
+  · rcases hinv.rest with ⟨h0, _⟩ | ⟨L, hl, ⟨mtk, hm1, hmok⟩, _, _⟩
+    · have := getElem?_lt h1; omega
+    · rw [h1] at hm1; cases hm1
+      cases hmok with
+      | waitNode m' rest' _ h2 =>
+        simp at hf
+        obtain ⟨rfl, _⟩ := hf
+        exact ⟨rfl, h2⟩
+      | init => simp at hf
+      | launching => simp at hb
+      | waitingDest => simp at hf
+      | waitDest => simp at hf
+      | done => simp at hf
+  · -- finishing phase: every other task is finished or cancel-marked
+    have := (hfin.others 1 tk (by omega) h1).1
+    cases hst : tk.st with
+    | done r => simp [Task.isDone, hst] at hnd
+    | runnable rv => simp [Task.marked, Task.isDone, hst, hmc] at this
+    | blocked w => simp [Task.marked, Task.isDone, hst, hmc] at this
 
 /-! ### Non-vacuity
 
